@@ -226,11 +226,12 @@ Qed.
 
 (* ------------------------------------------ fuel: references point upwards *)
 
-(* Every reference names a generated ID with a strictly larger ordinal that
-   has been drawn. (RegenerateID writes KGen n -> KGen (supply), n < supply.) *)
+(* Every reference names a generated ID that has been drawn, with a strictly
+   larger ordinal than the ID it is stored under. (RegenerateID writes
+   KGen n -> KGen (supply), n < supply.) *)
 Definition ref_wf (s : st) : Prop :=
   forall k r t, L s k = Some r -> r_ref r = Some t ->
-    exists n m, k = KGen n /\ t = KGen m /\ (n < m)%N /\ (m < supply s)%N.
+    exists m, t = KGen m /\ (m < supply s)%N /\ (forall n, k = KGen n -> (n < m)%N).
 
 Lemma ref_wf_pres s s' : Lpres s s' -> supply s' = supply s -> ref_wf s -> ref_wf s'.
 Proof.
@@ -240,17 +241,18 @@ Proof.
     apply (H k r0 t); [exact E0 | exact Hr].
 Qed.
 
-Lemma chain_len s : ref_wf s -> forall rest k r,
-  L s k = Some r -> chain_rec s r rest -> rest <> [] ->
-  exists n, k = KGen n /\ N.to_nat n + length rest < N.to_nat (supply s).
+(* an intact chain is shorter than the number of IDs drawn *)
+Lemma chain_len s : ref_wf s -> forall t k r k1,
+  L s k = Some r -> chain_rec s r (k1 :: t) ->
+  exists m1, k1 = KGen m1 /\ N.to_nat m1 + length (k1 :: t) <= N.to_nat (supply s).
 Proof.
-  intros Hw. induction rest as [|k1 t IH]; intros k r Hl Hc Hne; [congruence|].
-  destruct Hc as [Hr [r1 [Hl1 Hc1]]].
-  destruct (Hw k r k1 Hl Hr) as [n [m [-> [-> [Hnm Hm]]]]].
-  exists n. split; [reflexivity|]. destruct t as [|k2 t'].
-  - cbn. lia.
-  - destruct (IH (KGen m) r1 Hl1 Hc1 ltac:(discriminate)) as [m' [Em Hlen]].
-    injection Em as <-. cbn [length] in *. lia.
+  intros Hw. induction t as [|k2 t' IH]; intros k r k1 Hl [Hr [r1 [Hl1 Hc1]]].
+  - destruct (Hw k r k1 Hl Hr) as [m [-> [Hm _]]]. exists m. split; [reflexivity|]. cbn. lia.
+  - destruct (Hw k r k1 Hl Hr) as [m [-> [Hm _]]]. exists m. split; [reflexivity|].
+    destruct (IH (KGen m) r1 k2 Hl1 Hc1) as [m2 [E2 Hlen]].
+    destruct Hc1 as [Hr1 _]. destruct (Hw (KGen m) r1 k2 Hl1 Hr1) as [m2' [E2' [_ Hlt]]].
+    assert (m2' = m2) by congruence. subst m2'. specialize (Hlt m eq_refl).
+    cbn [length] in *. lia.
 Qed.
 
 Lemma chain_rec_L s rest : forall r k', chain_rec s r rest -> In k' rest -> exists r', L s k' = Some r'.
@@ -281,8 +283,9 @@ Proof.
       * exact (qu_ndc _ _ Q).
       * exact (ref_wf_pres s s1 (qu_L _ _ Q) (qu_supply _ _ Q) Hw).
       * exact Pobj.
-      * cbn [o_rec]. intros t' Hr'. destruct (Hw (KGen m) r' t' El Hr') as [n [m' [En [-> [Hnm Hm']]]]].
-        injection En as <-. exists m'. rewrite (qu_supply _ _ Q). split; [reflexivity|]. split; [exact Hm' | lia].
+      * cbn [o_rec]. intros t' Hr'. destruct (Hw (KGen m) r' t' El Hr') as [m' [-> [Hm' Hnm]]].
+        specialize (Hnm m eq_refl).
+        exists m'. rewrite (qu_supply _ _ Q). split; [reflexivity|]. split; [exact Hm' | lia].
     + (* the target is gone: a different error *)
       unfold L in El. destruct (lookup (cache s) (KGen m)) as [o'|] eqn:Ec.
       * destruct (Hco _ _ Ec) as [ob' [Hg' _]]. rewrite Hg' in El. discriminate.
@@ -295,7 +298,7 @@ Corollary follow_fuel_suffices s o ob :
   snd (follow (S (N.to_nat (supply s))) s o) <> Err ERefLoop.
 Proof.
   intros Hp Hco [Hnd _] Hw Hg Hl. apply (follow_no_loop _ s o ob Hp Hco Hnd Hw Hg).
-  intros t Hr. destruct (Hw _ _ t Hl Hr) as [n [m [_ [-> [_ Hm]]]]].
+  intros t Hr. destruct (Hw _ _ t Hl Hr) as [m [-> [Hm _]]].
   exists m. split; [reflexivity|]. split; [exact Hm | lia].
 Qed.
 
@@ -324,7 +327,9 @@ Proof.
   unfold valid_for in Hvalid. rewrite Hvalid. cbn [negb]. rewrite Href. cbn [negb andb].
   replace (sat_add (c_idexpiry (conf s)) (c_grace (conf s)) <=? since (r_created r) (now s))%Z with false
     by (symmetry; apply Z.leb_gt; exact Hage).
-  destruct (chain_len s Hw rest k r HL Hch Hne) as [n [_ Hlen]].
+  assert (Hlen : length rest <= N.to_nat (supply s)).
+  { destruct rest as [|k1' t']; [congruence|].
+    destruct (chain_len s Hw t' k r k1' HL Hch) as [m1 [_ Hl1]]. lia. }
   destruct (follow_chain rest (S (N.to_nat (supply s1))) s1 o0 (mkObj k r))
     as [s2 [o' [ob' (Ef & Q2 & Hg2 & Hr2 & Hid2 & _ & Hcons)]]].
   - rewrite (qu_supply _ _ Q). lia.
@@ -368,4 +373,66 @@ Proof.
         destruct (hget s2 ox) as [obx|]; [|discriminate]. injection HL2 as HL2.
         eexists. split; [reflexivity|]. rewrite HL2. exact Hr2.
     + exists (o_rec ob'). split; [exact HL2 | exact Hr2].
+Qed.
+
+(* ------------------------------- RegenerateID keeps references pointing up *)
+
+Lemma regenerate_ref_wf s o ob s' res cks :
+  plan s = [] -> cache_ok s -> nodup_ok s -> fresh_ok s -> ref_wf s ->
+  hget s o = Some ob -> r_ref (o_rec ob) = None ->
+  regenerate s o = (s', res, cks) -> ref_wf s'.
+Proof.
+  intros Hp Hco [Hndc Hnds] Hf Hw Hg Href E.
+  destruct (regenerate_ff s o ob Hp Hndc (cache_ok_heap s Hco Hndc) Hg (fresh_cache_none s Hf)
+              (fresh_obj_id s o ob Hf Hg)) as [s2 [E2 P]].
+  rewrite E in E2. injection E2 as <- _ _.
+  destruct (regen_post_view s o ob s' Hg P) as (_ & V2 & _ & V4 & V5 & _).
+  pose proof (hget_Some_lt _ _ _ Hg) as Hlt.
+  assert (Hother : forall o' ob', o' <> o -> hget s o' = Some ob' -> hget s' o' = Some ob').
+  { intros o' ob' Hne Hg'. pose proof (hget_Some_lt _ _ _ Hg') as Hlt'.
+    unfold hget in *. rewrite (rg_heap _ _ _ _ P).
+    rewrite nth_error_app1 by (rewrite replace_nth_length; exact Hlt').
+    rewrite nth_replace_nth_other by congruence. exact Hg'. }
+  intros k r t Hl Hr. rewrite V2.
+  destruct (key_eq_dec k (KGen (supply s))) as [->|Hkj].
+  { rewrite V4 in Hl. injection Hl as <-.
+    destruct (cached s' (KGen (supply s))); cbn in Hr; congruence. }
+  destruct (key_eq_dec k (o_id ob)) as [->|Hko].
+  { rewrite V5 in Hl. injection Hl as <-.
+    assert (t = KGen (supply s)) by (destruct (cached s' (o_id ob)); cbn in Hr; congruence). subst t.
+    exists (supply s). split; [reflexivity|]. split; [lia|].
+    intros n En. destruct Hf as [_ [_ [F3 _]]]. destruct (F3 o ob Hg) as [Hd _].
+    rewrite En in Hd. exact Hd. }
+  assert (Hs : exists r0, L s k = Some r0 /\ r_ref r0 = r_ref r).
+  { destruct (rg_keys _ _ _ _ P k Hko Hkj) as [[K1 K2]|[K1 [o' [ob' [K2 [K3 K4]]]]]].
+    - unfold L in Hl |- *. rewrite K1, K2 in Hl. destruct (lookup (cache s) k) as [o'|] eqn:Ec.
+      + destruct (Hco _ _ Ec) as [ob' [Hg' Hid']].
+        assert (o' <> o) by (intros ->; congruence).
+        rewrite Hg'. rewrite (Hother o' ob' H Hg') in Hl. exists (o_rec ob'). split; congruence.
+      + exists r. auto.
+    - destruct (Hco _ _ K2) as [ob0 [Hg0 Hid0]].
+      assert (o' <> o) by (intros ->; congruence).
+      pose proof (Hother o' ob0 H Hg0) as Hg0'. assert (ob0 = ob') by congruence. subst ob0.
+      rewrite (L_uncached _ _ K1), K4 in Hl. injection Hl as <-.
+      exists (o_rec ob'). split; [apply (L_cached s k o' ob' K2 Hg0) | reflexivity]. }
+  destruct Hs as [r0 [Hl0 Hr0]]. rewrite <- Hr0 in Hr.
+  destruct (Hw k r0 t Hl0 Hr) as [m [-> [Hm Hn]]].
+  exists m. split; [reflexivity|]. split; [lia | exact Hn].
+Qed.
+
+Lemma ref_wf_init c : ref_wf (init_st c).
+Proof. intros k r t H. discriminate. Qed.
+
+(* right after an ID change the replaced ID heads an intact chain of length 1 *)
+Lemma regenerate_chain s o ob s' res cks :
+  plan s = [] -> cache_ok s -> nodup_ok s -> fresh_ok s ->
+  hget s o = Some ob -> r_ref (o_rec ob) = None ->
+  regenerate s o = (s', res, cks) -> chain_from s' (o_id ob) [KGen (supply s)].
+Proof.
+  intros Hp Hco Hnd Hf Hg Href E.
+  destruct (regenerate_C04 s o ob Hp Hco Hnd Hf Hg) as [s2 (E2 & _ & _ & _ & V4 & V5 & _)].
+  rewrite E in E2. injection E2 as <- _ _.
+  eexists. split; [exact V5|]. cbn [chain_rec]. split.
+  - destruct (cached s' (o_id ob)); reflexivity.
+  - eexists. split; [exact V4|]. destruct (cached s' (KGen (supply s))); cbn; exact Href.
 Qed.
